@@ -1,10 +1,2 @@
-import Eav.Basic
-import Eav.Codes
-import Eav.Utf8
-import Eav.Local
-import Eav.Domain
-import Eav.Ip
-import Eav.Special
-import Eav.Tld
-import Eav.Email
-import Eav.Api
+import Eav.Model
+import Eav.Props.GenTie
